@@ -143,6 +143,8 @@ def setup():
 # ---------------------------------------------------------------- proofs
 def theorem_names(pid):
     p = os.path.join(COQ, 'Properties', pid + '.v')
+    if not os.path.exists(p):
+        return []
     text = re.sub(r'\(\*.*?\*\)', '', open(p).read(), flags=re.S)
     return re.findall(r'^\s*Theorem\s+([A-Za-z0-9_\']+)', text, flags=re.M)
 
@@ -151,9 +153,15 @@ def check_proofs(pid):
     """(re)build Properties/<pid>.vo; return dict with obligations, discharged, assumptions, error"""
     names = theorem_names(pid)
     res = {'obligations': len(names), 'discharged': 0, 'theorems': names, 'assumptions': {}, 'error': None}
-    rc, out = coq_make(['Properties/%s.vo' % pid, 'Cases/%s.vo' % pid, 'Cases/Pack.vo'])
+    targets = ['Cases/%s.vo' % pid, 'Cases/Pack.vo']
+    if names:
+        targets.append('Properties/%s.vo' % pid)
+    rc, out = coq_make(targets)
     res['make_rc'] = rc
     vo = os.path.join(COQ, 'Properties', pid + '.vo')
+    if not names:
+        res['error'] = 'no Properties/%s.v yet' % pid
+        return res
     if rc != 0 or not os.path.exists(vo):
         res['error'] = out[-3000:]
         # which file failed?
@@ -385,8 +393,8 @@ def run_property(pid, tier, seed, replay_file=None):
     searched = 0
     if not replay_file and (corr_fail or proofs['discharged'] < proofs['obligations']) and \
             not any((verd_all[i] >> 3) == 0 for i in spec_fail):
-        for r in range(cfg.get('search_rounds', 3)):
-            n = cfg['n_quick'] * 2
+        for r in range(cfg.get('search_rounds', 2)):
+            n = cfg['n_quick']
             cases = run_harness(cfg, 'gen', os.path.join(d, 'search%d.jsonl' % r), seed=seed * 1000 + 17 * (r + 1),
                                 n=n, tier='search')
             batch(cases, 'search%d' % r)
